@@ -1,5 +1,5 @@
 (* Properties_C18.v — refresh warnings follow each record's lifetime and stop with it. *)
-From QV Require Import Base Fields SrcFacts Msg SrcDecisions Cache CacheSpec CacheProofs CacheAccept.
+From QV Require Import Base Fields SrcFacts Msg SrcDecisions Cache CacheSpec CacheProofs CacheAccept CacheLate.
 Local Open Scope Z_scope.
 
 (* the schedule written by addRecord: 50 / 85 / 90 / 95 % of the TTL plus the jitter, then the expiry;
@@ -81,3 +81,12 @@ Example C18_acceptor_discriminates :
   mon_cache [CAdd a 0; CAdv 999] [[]; [w 500; w 870; w 900; w 950]] = Some (1%N, 5%N) /\
   mon_cache [CAdd a 0; CAdd (set_ttl 0 a) 0; CAdv 999] [[]; [OSig 0 (Expired a) []]; [w 500]] = Some (2%N, 4%N).
 Proof. vm_compute. auto. Qed.
+
+(* for a timeout serviced at ANY instant (late firings included): a refresh warning names a record that is held when the
+   warning is raised and is still held after the pass - never one that has expired *)
+Theorem C18_warnings_only_for_held_records t es kept nn r snap :
+  In (ShouldQuery r, snap) (snd (pass t kept es nn)) ->
+  In r snap /\ exists e, In e es /\ e_rec e = r /\ snd (drop_passed t (e_trig e)) <> [] /\
+                        In r (map e_rec (fst (fst (pass t kept es nn)))).
+Proof. exact (pass_warning_alive t es kept nn r snap). Qed.
+Print Assumptions C18_warnings_only_for_held_records.
